@@ -19,7 +19,8 @@ def sh(cmd, cwd, timeout=1800):
 
 def main():
     prop, letter, out = sys.argv[1], sys.argv[2], sys.argv[3]
-    sid = f"{prop}-{letter}"
+    prefix = sys.argv[4] if len(sys.argv) > 4 else ""
+    sid = f"{prop}-{prefix}{letter}"
     dst = os.path.join(VERIF, "seeded", sid)
     os.makedirs(dst, exist_ok=True)
     shutil.copy(os.path.join(out, f"{letter}.patch.diff"), os.path.join(dst, "patch.diff"))
